@@ -433,8 +433,16 @@ func (m *c14Model) isHistRels(v *c14Val) bool {
 // exitVal evaluates the last result of a return of the root activation in the state's store.
 func (m *c14Model) exitVal(g *c14Graph, s *c14State) (int8, *c14Val, ast.Expr) {
 	ret, _ := s.n.ast.(*ast.ReturnStmt)
-	if ret == nil || len(ret.Results) == 0 {
+	if ret == nil {
 		return 0, nil, nil
+	}
+	if rs := s.n.ctx.fn.results; len(ret.Results) == 0 {
+		// bare return of named results
+		if len(rs) == 0 || rs[len(rs)-1] == nil {
+			return 0, nil, nil
+		}
+		vals := g.returnVals(s.store, s.n.ctx, ret)
+		return vals[len(vals)-1], g.resolveVar(s.n.ctx, s.n.ctx, rs[len(rs)-1], s.n), nil
 	}
 	vals := g.returnVals(s.store, s.n.ctx, ret)
 	e := ret.Results[len(ret.Results)-1]
@@ -456,7 +464,7 @@ func (m *c14Model) recNodes() []*c14Node {
 //	for _, p := range path { if p == X { … } }       (in the DFS itself or in a followed helper)
 func (m *c14Model) scansFor(x *c14Val, at *c14Node) (scans []*c14Scan, why string) {
 	g, wf := m.wg, m.wf
-	why = "no loop over the path parameter compares its elements with the member id"
+	why = "no loop over the path parameter compares its elements with the member id: on a reference cycle (1→2→1, or the self reference 1→1) the recursion never ends"
 	for _, l := range wf.loops {
 		if !m.isPathParam(g.rangeX(l)) {
 			continue
@@ -481,11 +489,11 @@ func (m *c14Model) scansFor(x *c14Val, at *c14Node) (scans []*c14Scan, why strin
 				continue
 			}
 			if other.key == x.key && !g.sameValue(other, n, x, at) {
-				why = fmt.Sprintf("a path leads from the comparison `%s` (%s) to the recursive call through a reassignment of the compared variables (the next iteration of an enclosing loop): a match does not end the walk of the current id, and the call is not guarded by a scan for its own id", m.nodeSrc(n), m.rel(n.pos()))
+				why = fmt.Sprintf("when the comparison `%s` (%s) finds the member among the ancestors the walk of the current id is not left: control goes on to the next member and reaches the recursive call again. An activation that has met an ancestor is neither emitted nor marked visited, so it goes on recursing into its remaining members and is walked again from scratch every time it is reached — factorially many re-walks on densely cyclic graphs — and no cancellation test lies between two such recursive calls, so Close cannot stop it", m.nodeSrc(n), m.rel(n.pos()))
 				continue
 			}
 			if !g.sameValue(other, n, x, at) {
-				why = fmt.Sprintf("the path scan at %s compares against `%s`, not against the id handed to the recursive call", m.rel(l.stmt.Pos()), src(m.p.Fset, other.node))
+				why = fmt.Sprintf("the path scan at %s compares against `%s`, not against the id handed to the recursive call: an ancestor is not recognised and a reference cycle recurses without bound", m.rel(l.stmt.Pos()), src(m.p.Fset, other.node))
 				continue
 			}
 			if v.op == token.EQL {
